@@ -9,10 +9,12 @@ META = {
                    'except print rejects a wrong argument count with an ArgumentError before touching args[0]; R14.3 every builtin, for each '
                    'of the seven value types (49 cells), reaches a return (value or explicit error) with no undischarged panic source; R14.4 '
                    'converting a value to its own type returns the argument itself; R14.5 integer results are range-checked at the encoder.'
-                   ' R14.7 every way the compiler translates a call ends in exactly one Call / CallBuiltin (no compile-time answers for builtins).',
+                   ' R14.7 every way the compiler translates a call ends in exactly one Call / CallBuiltin (no compile-time answers for builtins).'
+                   ' R14.6 float->int casts are guarded on both sides by comparisons that exclude NaN, and the guard (constants folded in double arithmetic) lets through the extreme floats that still convert.'
+                   ' R14.8 print looks for placeholders only in the format text itself, never in text an argument inserted.',
     'exhaustive': True,
     'not_decided': ['the documented results of conversions as values (decimal spelling, number -> text -> number round trip)',
-                    "the placeholder substitution of print (string-valued behaviour; `print(\"{} {}\", \"{}\", 1)` prints `1 {}`)"],
+                    "the text print produces for a given format and arguments (only the single-pass structure of the substitution is decided)"],
 }
 BUILTINS = {'print': 'call_print', 'type': 'call_type', 'bool': 'call_bool', 'int': 'call_int', 'float': 'call_float', 'string': 'call_string', 'lengte': 'call_length'}
 OWN = {'call_bool': 'Bool', 'call_int': 'Int', 'call_float': 'Float', 'call_string': 'String'}
@@ -165,6 +167,136 @@ def run(ctx, rep):
     shared.check_float_casts(ctx, rep, 'R14.6')
     rep.rule('R14.7', 'a builtin is answered by the builtin: every way the compiler translates a call ends in Call / CallBuiltin (the compiler has no answers of its own for a builtin)')
     check_calls_are_calls(ctx, rep, 'R14.7')
+    rep.rule('R14.8', 'print substitutes in one pass: text that an argument inserted is never searched for placeholders again')
+    check_print_single_pass(ctx, rep, 'R14.8')
+
+
+SEARCHES = ('replacen', 'replace', 'find', 'rfind', 'split', 'splitn', 'rsplit', 'rsplitn', 'split_once', 'rsplit_once', 'match_indices',
+            'rmatch_indices', 'matches', 'split_inclusive', 'split_terminator', 'strip_prefix', 'starts_with', 'contains')
+BUILDERS = ('push_str', 'push', 'insert_str', 'insert', 'extend', 'write_str', 'write_fmt', 'add_assign', 'add', 'extend_from_slice')
+WALKS = ('chars', 'char_indices', 'bytes')
+
+
+def _str_method(name):
+    """method name when the callee is a method of str / String (any impl block), else None"""
+    if 'str' not in name and 'String' not in name and 'string' not in name:
+        return None
+    return name.split('::')[-1]
+
+
+def check_print_single_pass(ctx, rep, rule):
+    """`print` replaces the placeholders of its FIRST argument by the remaining arguments in order.  Necessary for that: a
+    placeholder is looked for only in the format text itself.  A search (replacen / find / split ...) on text that was put
+    together from several pieces (the result of an earlier replacement, a buffer that push_str built) also finds `{}` that
+    an argument brought in: `print("{} {}", "{}", "x")` then prints `x {}`.  Decided by a flow-insensitive derivation graph
+    over the locals of call_print (helpers that are new are spliced in): no search receives text derived from a composite."""
+    F = ctx.facts()
+    fn = F.fn('builtins::call_print')
+    derives = {}      # local -> set of locals it is derived from
+
+    def edge(src, dst):
+        if src is not None and dst is not None and src != dst:
+            derives.setdefault(dst, set()).add(src)
+
+    def locals_of_rv(rv):
+        acc = set()
+        def walk(x):
+            if isinstance(x, dict):
+                if 'local' in x and 'proj' in x:
+                    acc.add(x['local'])
+                    for e in x['proj']:
+                        if isinstance(e, dict) and 'index' in e:
+                            acc.add(e['index'])
+                for v in x.values():
+                    walk(v)
+            elif isinstance(x, list):
+                for v in x:
+                    walk(v)
+        walk(rv)
+        return acc
+
+    def mut_target(op):
+        """base local of the place a `&mut` argument points at (through reborrow chains), else None"""
+        l = op_base_local(op)
+        for _ in range(12):
+            if l is None:
+                return None
+            d = fn.single_def(l)
+            if d is None or d[0] != 'assign':
+                return l if 'mut' in fn.local_ty(l) or True else None
+            rv = d[3]
+            if rv['k'] in ('ref', 'rawptr'):
+                l2 = rv['place']['local']
+                if not any(e == 'deref' for e in rv['place']['proj']):
+                    return l2
+                l = l2
+            elif rv['k'] == 'use' and op_base_local(rv['op']) is not None:
+                l = op_base_local(rv['op'])
+            else:
+                return l
+        return l
+
+    for b, si, st in fn.stmts():
+        if st['k'] == 'assign':
+            for l in locals_of_rv(st['rv']):
+                edge(l, st['place']['local'])
+    composite = {}    # local -> why
+    searches = []
+    walks = 0
+    for b, t in fn.calls():
+        name = callee_name(t)
+        m = _str_method(name)
+        dest = t['dest']['local']
+        argl = [op_base_local(a) for a in t['args']]
+        ranged = 'ops::index::Index' in name or name.endswith('::get') or name.endswith('::get_unchecked')
+        if not ranged:
+            for a in argl:
+                edge(a, dest)
+        else:
+            # a sub-slice of a composite taken at a computed position may well exclude what was inserted: not followed (stated limit)
+            pass
+        first_ty = fn.local_ty(argl[0]) if argl and argl[0] is not None else ''
+        if argl and argl[0] is not None and '&' in first_ty and 'mut' in first_ty:
+            tgt = mut_target(t['args'][0])
+            for a in argl[1:]:
+                edge(a, tgt)
+            if m in BUILDERS:
+                composite[tgt] = '%s at %s' % (m, span_loc(t['span']))
+        if m in ('replacen', 'replace', 'concat', 'join', 'repeat') or name.endswith('fmt::format') or name.endswith('fmt::format::format_inner'):
+            composite[dest] = 'result of %s at %s' % (name.split('::')[-1], span_loc(t['span']))
+        if m == 'add' and 'String' in name:
+            composite[dest] = 'String + at %s' % span_loc(t['span'])
+        if m in SEARCHES and len(t['args']) >= 2 and (t['span'].get('macros') or [None])[-1] is None:
+            searches.append((b, t, m))
+        if m in WALKS:
+            walks += 1
+
+    def reach_composite(l):
+        seen, work = set(), [l]
+        while work:
+            x = work.pop()
+            if x in seen or x is None:
+                continue
+            seen.add(x)
+            if x in composite:
+                return x
+            work.extend(derives.get(x, ()))
+        return None
+
+    n = 0
+    for b, t, m in searches:
+        n += 1
+        hay = op_base_local(t['args'][0])
+        c = reach_composite(hay)
+        rep.ob(c is None, rule, fn.path, 'placeholder search %s#%d' % (m, n),
+               'the text searched is the format argument as it was given, not text put together from pieces (%s)' % (
+                   'derived only from single values' if c is None else 'it derives from %s: %s' % (fn.local_name(c), composite[c])), span_loc(t['span']))
+    if not searches:
+        if walks:
+            rep.ob(True, rule, fn.path, 'placeholder scan by characters', 'the format text is walked character by character (%d walks); no search is repeated on built-up text' % walks, fn.loc())
+        else:
+            raise CheckerError('UNDECIDED rule=%s construct=builtins::call_print: neither a placeholder search nor a character walk found' % rule)
+    rep.count('placeholder_searches', len(searches))
 
 
 def check_calls_are_calls(ctx, rep, rule):
